@@ -243,6 +243,48 @@ func c07Rounds(kind string, rng *Rng, nrounds, width int, versioned bool) {
 	s.end()
 }
 
+// deterministic witness of the non-atomic copy: the copy's GetObject and PutObject are separated
+// by an acknowledged PUT of the same key (forced through a wrapper that runs the library's own
+// CopyObject helper)
+func c07CopyWitness(kind string) {
+	if isSingle(kind) {
+		return
+	}
+	st := newStore(kind)
+	rec := &recBackend{inner: st.Backend, gateCopy: true, gateEntered: make(chan struct{}), gateRelease: make(chan struct{})}
+	s := &Sess{prop: "c07", kind: kind, st: st, h: newServer(rec)}
+	emit("c07", "H", kind, "auto=0,versioned=0,pages=0,failpage=0", "-")
+	b := singleBucketName
+	s.MkBucket(b)
+	s.Put(b, "k", []byte("OLD"), nil)
+	done := make(chan Resp, 1)
+	go func() {
+		done <- do(s.h, Req{Method: "PUT", Path: "/" + b + "/k", Body: []byte{}, Header: [][2]string{{"X-Amz-Copy-Source", "/" + b + "/k"}}})
+	}()
+	if !waitOr(rec.gateEntered, 5*time.Second) {
+		emit("c07", "HANG", hs("copy never reached its PutObject"))
+		s.end()
+		return
+	}
+	rec.gateCopy = false // the concurrent PUT below is not part of the copy
+	r2 := do(s.h, Req{Method: "PUT", Path: "/" + b + "/k", Body: []byte("NEW")})
+	rec.gateCopy = true
+	close(rec.gateRelease)
+	r1 := <-done
+	emit("c07", "RB")
+	et := ""
+	if e := xmlAll(string(r1.Body), "ETag"); len(e) > 0 {
+		et = e[0]
+	}
+	s.emitOp("copy", []string{hs(b), hs("k"), hs(b), hs("k")}, obsT{r: r1, etag: et})
+	s.emitPut(b, "k", []byte("NEW"), r2)
+	emit("c07", "RP")
+	rec.gateCopy = false
+	s.Get(b, "k", "")
+	emit("c07", "RE")
+	s.end()
+}
+
 func runC07(tier string, seed uint64) {
 	rng := NewRng(seed)
 	rounds, reps := 25, 2
@@ -251,6 +293,9 @@ func runC07(tier string, seed uint64) {
 	}
 	for _, kind := range allKinds {
 		c07Forced(kind, rng)
+		if kind == "mem" || kind == "bolt" {
+			c07CopyWitness(kind)
+		}
 		for rep := 0; rep < reps; rep++ {
 			for _, width := range []int{2, 4, 6, 16} {
 				c07Rounds(kind, rng, rounds, width, false)
